@@ -46,3 +46,4 @@ func vEngine() bool
 func vOr(a, b bool) bool
 func vAnd(a, b bool) bool
 func vTapeRewind()
+func vDrawN(i int) uint32
